@@ -408,7 +408,7 @@ func RunCheck(o CheckOptions) int {
 			if ob.Facts["_maporder"] != "" || ob.Facts["_schedule"] != "" {
 				rpt = 60
 			}
-			natIn = append(natIn, &nativeInput{Harness: pn.h.Name(), Package: pn.rep.Package, Vals: ob.Model, Repeat: rpt})
+			natIn = append(natIn, &nativeInput{Harness: pn.h.Name(), Package: pn.rep.Package, Vals: ob.Model, Repeat: rpt, Cex: true})
 			cexRefs = append(cexRefs, cexRef{rec, len(natIn) - 1})
 		}
 	}
@@ -597,6 +597,7 @@ type nativeInput struct {
 	Package string            `json:"package"`
 	Vals    map[string]uint64 `json:"vals"`
 	Repeat  int               `json:"repeat,omitempty"` // re-run until an assert fails (map-order dependent counterexamples)
+	Cex     bool              `json:"cex,omitempty"`    // a counterexample (as opposed to a sampled cross-check path)
 }
 
 type nativeOutcome struct {
@@ -706,7 +707,56 @@ func TestZZVerifNative(t *testing.T) {
 `
 
 // runNative executes the harnesses natively (go test -overlay) on the given inputs.
+// runNative runs all inputs in one test process per package. When that process dies (a Go
+// "fatal error", e.g. unlock of an unlocked mutex, or a panic outside the harness's recover),
+// the counterexample inputs are re-run one per process: an input whose own process dies
+// gets an outcome with Panic set (a crash reproduces a "does not panic" counterexample);
+// the sampled cross-check inputs are given up for this run.
 func runNative(o CheckOptions, realOf map[string]string, ins []*nativeInput) ([]*nativeOutcome, error) {
+	outs, err := runNativeBatch(o, realOf, ins)
+	if err == nil {
+		return outs, nil
+	}
+	outs = make([]*nativeOutcome, len(ins))
+	any := false
+	tried := 0
+	for i, in := range ins {
+		if !in.Cex || tried >= 16 {
+			continue
+		}
+		tried++
+		one, e1 := runNativeBatch(o, realOf, []*nativeInput{in})
+		if e1 == nil {
+			if len(one) == 1 {
+				outs[i] = one[0]
+				any = true
+			}
+			continue
+		}
+		msg := e1.Error()
+		if k := strings.Index(msg, "fatal error:"); k >= 0 {
+			line := msg[k:]
+			if j := strings.IndexByte(line, '\n'); j >= 0 {
+				line = line[:j]
+			}
+			outs[i] = &nativeOutcome{Panic: "process died: " + line}
+			any = true
+		} else if k := strings.Index(msg, "panic:"); k >= 0 {
+			line := msg[k:]
+			if j := strings.IndexByte(line, '\n'); j >= 0 {
+				line = line[:j]
+			}
+			outs[i] = &nativeOutcome{Panic: "process died: " + line}
+			any = true
+		}
+	}
+	if !any {
+		return nil, err
+	}
+	return outs, nil
+}
+
+func runNativeBatch(o CheckOptions, realOf map[string]string, ins []*nativeInput) ([]*nativeOutcome, error) {
 	tmp, err := os.MkdirTemp("", "hcsym-native-")
 	if err != nil {
 		return nil, err
